@@ -29,6 +29,11 @@ where
         if x_curr != 0 as f64 {
             approx_err = ((x_curr - xr_old).abs() / x_curr) * 100.0;
         }
+        // The relative change is undefined at (and never small near) a root at the origin:
+        // an iterate on which the function vanishes is a root whatever the last step was
+        if x_curr.is_finite() && polynomial.eval_univariate(x_curr)? == 0.0 {
+            approx_err = 0.0;
+        }
         if approx_err.abs() < error_tol || iter >= itermax {
             break;
         }
